@@ -30,6 +30,18 @@ prefix in use, H_<n>, and PretextView's own Scaffold_<n>), and the letter 'I' (t
 reads it as a roman numeral; the input lists its scaffolds in numeric-aware order so that "same order" can be judged
 literally).
 
+Tags on INPUT contigs.  "Untagged" is said of the Pretext map; the input assembly is any assembly, and one legal input is
+the AGP this tool wrote in an earlier curation round (`--assembly` accepts AGP; columns 10.. of a component line are its
+tags).  That file carries tags on some contigs: every contig cut in the earlier round is tagged Cut followed by the tags
+the curator had put on that piece (Cut Unloc, Cut Haplotig, Cut Contaminant, Cut FalseDuplicate, Cut Singleton), and tags
+read from an older input are passed on unchanged.  An unedited map over such an input has no tag of its own, so the
+statement asks for the same result as without them: every scaffold - present in the map or shorter than a texel and absent -
+in the primary output under its own name, no other assembly.  The `tags` families put these tag sets on contigs of absent
+sub-texel scaffolds and of scaffolds present in the map, through both routes that can carry them (Fragment objects, AGP
+text with tag columns written here) and, for some cases, through the pretext-to-asm command line (only the primary file may
+be written).  Kept OUT of the tag space for now (reported, see INPUT_TAG_SETS): input tags that are not in the tool's list of
+known words.
+
 Painted clause, on top of the returned assemblies: for every n-th all-painted case the output assemblies are asked for a
 second time from the same BuildAssembly (names and content must not depend on how often they are requested), and some
 all-painted cases are run through the pretext-to-asm command line with --autosome-prefix, twice in the same process: the
@@ -207,7 +219,7 @@ def cli_problems(case):
     problems = []
     with tempfile.TemporaryDirectory() as d:
         d = pathlib.Path(d)
-        (d / "asm.agp").write_text(pg.input_agp_text(inp))
+        (d / "asm.agp").write_text(tagged_agp_text(inp))
         (d / "pretext.agp").write_text(pg.pretext_agp_text(case["map"]))
         for attempt in (1, 2):
             out_dir = d / f"out{attempt}"
@@ -240,8 +252,131 @@ def cli_problems(case):
     return problems
 
 
+# --------------------------------------------------------------------------------------------------
+# tags on input contigs: the input route "AGP with tag columns" (e.g. this tool's output of an earlier round)
+# --------------------------------------------------------------------------------------------------
+
+# What an AGP written by an earlier curation round carries on a contig: Cut (the contig was cut), followed by the tags of
+# the Pretext piece it was cut for; and the same words alone (tags are passed on from input to output unchanged).
+# NOT generated (the unchanged tree violates the statement for them; reported, not yet recorded): a haplotype's name
+# (Cut Hap2 -> an extra assembly Hap2), Target (every other absent scaffold becomes a contaminant), Primary (TaggingError).
+INPUT_TAG_SETS = (
+    ("Cut",), ("Cut", "Unloc"), ("Cut", "Haplotig"), ("Cut", "Contaminant"), ("Cut", "FalseDuplicate"), ("Cut", "Singleton"),
+    ("Unloc",), ("Haplotig",), ("Contaminant",), ("FalseDuplicate",), ("Singleton",), ("Unloc", "Cut"), ("Cut", "Cut"),
+)
+TAG_PLACES = ("absent_first", "absent_all", "present_last", "every_contig", "first_of_each")
+
+
+def with_tags(inp, place, tags, bpt):
+    """
+    the same input with `tags` on some contigs: absent_first / absent_all = the first / every contig of each scaffold shorter
+    than a texel; present_last = the last contig of each scaffold of at least a texel; every_contig; first_of_each = the
+    first contig of every scaffold
+    """
+    f = pg.bptF(bpt)
+    out = []
+    for s in inp:
+        small = Fraction(pg.rows_len(s["rows"])) < f
+        frag_idx = [i for i, r in enumerate(s["rows"]) if r[0] == "F"]
+        if place == "absent_first":
+            chosen = frag_idx[:1] if small else []
+        elif place == "absent_all":
+            chosen = frag_idx if small else []
+        elif place == "present_last":
+            chosen = [] if small else frag_idx[-1:]
+        elif place == "every_contig":
+            chosen = frag_idx
+        else:
+            chosen = frag_idx[:1]
+        rows = [[*r[:5], list(tags)] if i in chosen else list(r) for i, r in enumerate(s["rows"])]
+        out.append({"name": s["name"], "rows": rows})
+    return out
+
+
+def has_input_tags(inp):
+    return any(r[0] == "F" and len(r) > 5 and r[5] for s in inp for r in s["rows"])
+
+
+def tagged_agp_text(inp):
+    """the input assembly as AGP text, the tags of a contig in columns 10.. (written here, not with tola.assembly.format)"""
+    out = ["##agp-version\t2.1\n", "# input assembly\n"]
+    for sc in inp:
+        p = 0
+        for n, r in enumerate(sc["rows"], 1):
+            ln = pg.row_len(r)
+            if r[0] == "G":
+                out.append(f"{sc['name']}\t{p + 1}\t{p + ln}\t{n}\tU\t{ln}\t{r[2]}\tyes\tproximity_ligation\n")
+            else:
+                strand = {1: "+", -1: "-", 0: "?"}[r[4]]
+                cols = [sc["name"], p + 1, p + ln, n, "W", r[1], r[2], r[3], strand, *(r[5] if len(r) > 5 else ())]
+                out.append("\t".join(str(c) for c in cols) + "\n")
+            p += ln
+    return "".join(out)
+
+
+def run_case(case):
+    """pg.run_case; via "agp+tags": the input assembly is parsed from AGP text WITH its tag columns, the map from PretextView AGP text"""
+    if case.get("via") != "agp+tags":
+        return pg.run_case(case)
+    import io
+
+    from tola.assembly.build_assembly import BuildAssembly
+    from tola.assembly.gap import Gap
+    from tola.assembly.indexed_assembly import IndexedAssembly
+    from tola.assembly.parser import parse_agp
+
+    run = pg.Run()
+    with pg.quiet():
+        try:
+            run.stage = "parse"
+            asm = parse_agp(io.StringIO(tagged_agp_text(case["input"])), "in")
+            prtxt = pg.build_pretext(case)
+            run.stage = "index"
+            input_asm = IndexedAssembly.new_from_assembly(asm)
+            build = BuildAssembly("x", default_gap=Gap(200, "scaffold"), autosome_prefix=case.get("prefix", "SUPER_"))
+            run.build = build
+            run.stage = "remap"
+            build.remap_to_input_assembly(prtxt, input_asm)
+            run.stage = "fuse"
+            out = build.assemblies_with_scaffolds_fused()
+            run.stage = "done"
+            run.raw_out = out
+            run.out = pg.plain_out(out)
+            st = build.assembly_stats
+            run.cuts, run.breaks, run.joins = st.cuts, st.breaks, st.joins
+        except Exception as e:  # noqa: BLE001 - the oracle decides
+            run.error = e
+    return run
+
+
+def cli_unpainted_problems(case):
+    """
+    an unpainted null map through the real command line (in process, temporary directory, removed), the input given as AGP
+    with its tag columns: the only assembly file written is the primary one and it holds the input's scaffolds, names and rows
+    """
+    inp = case["input"]
+    want = sorted((s["name"], rows_of(s["rows"])) for s in inp)
+    with tempfile.TemporaryDirectory() as d:
+        d = pathlib.Path(d)
+        (d / "asm.agp").write_text(tagged_agp_text(inp))
+        (d / "pretext.agp").write_text(pg.pretext_agp_text(case["map"]))
+        out_dir = d / "out"
+        out_dir.mkdir()
+        code, _, err, exc = cli_gen.run_pretext_to_asm(["-a", d / "asm.agp", "-p", d / "pretext.agp", "-o", out_dir / "x.agp", "--no-write-log", "-l", "ERROR"])
+        which = "pretext-to-asm on the unedited map, input given as AGP" + (" with tag columns" if has_input_tags(inp) else "")
+        if code != 0:
+            return [f"{which} exits with {code}: {((exc or '') + ' ' + (err or '')).strip()[-200:]}"]
+        files = sorted(p.name for p in out_dir.iterdir() if p.name.endswith(".agp"))
+        if files != ["x.1.primary.curated.agp"]:
+            return [f"{which} wrote assembly files {files}, expected only x.1.primary.curated.agp"]
+        got = sorted((n, [tuple(r) for r in rows]) for n, rows in agp_scaffolds((out_dir / files[0]).read_text()))
+        if got != want:
+            return [f"{which}: the written primary assembly differs from the input: scaffolds {[n for n, _ in got][:6]}, input {[n for n, _ in want][:6]}"]
+    return []
+
+
 def check(case, col):
-    run = pg.run_case(case)
+    run = run_case(case)
     if run.error is not None:
         col.fail(f"remapping of an unedited map did not complete ({run.stage}): {run.error_text}", case)
         return
@@ -250,6 +385,8 @@ def check(case, col):
         problems.extend(second_request_problems(run))
     if case.get("cli"):
         problems.extend(cli_problems(case))
+    if case.get("cli_unpainted"):
+        problems.extend(cli_unpainted_problems(case))
     if problems:
         col.fail("; ".join(problems[:3]), case)
 
@@ -398,19 +535,28 @@ def run(tier, seed, **opts):
         "texel sizes x floor/ceil x absent/present x painted/unpainted inside the side condition, (b) every ordered pair "
         "of a reduced shape set, (c) seeded inputs of 2-12 scaffolds x <= 4 contigs; three contig naming styles, input via "
         "objects/AGP/TPF; (d) enumerated and (e) seeded inputs with runs of 2-3 consecutive gap rows between contigs and gap rows in front of the "
-        "first / behind the last contig; (f) every shape of scaffold / contig names real assemblies use other than <x>_<y>_<digits> on a 3-scaffold input and (g) seeded inputs with seeded name shapes; oracle: row-by-row identity with the input (terminal gap rows dropped), painted names = prefix + rank by "
+        "first / behind the last contig; (f) every shape of scaffold / contig names real assemblies use other than <x>_<y>_<digits> on a 3-scaffold input and (g) seeded inputs with seeded name shapes; "
+        "(h) enumerated and (i) seeded inputs whose contigs carry the tags an AGP written by an earlier curation round carries (Cut, Cut + a piece tag, piece tags alone), on absent sub-texel and on placed scaffolds, "
+        "input via objects / AGP text with tag columns / the command line; oracle: row-by-row identity with the input (terminal gap rows dropped), painted names = prefix + rank by "
         "amount of sequence, also on a second request and through the command line with --autosome-prefix; non-trivial = distinct case in which at least one "
         "scaffold's texel rounding is not exact or a scaffold is absent"
     )
     quick = tier == "quick"
     namings = ("own", "fasta", "offset")
     n = 0
-    stats = {"single": 0, "pairs": 0, "random": 0, "gapruns": 0, "random_gapruns": 0, "names": 0, "random_names": 0, "all_painted": 0, "cli": 0, "skipped_outside_domain": 0}
+    stats = {"single": 0, "pairs": 0, "random": 0, "gapruns": 0, "random_gapruns": 0, "names": 0, "random_names": 0, "tags": 0, "random_tags": 0, "all_painted": 0, "cli": 0, "cli_unpainted": 0, "skipped_outside_domain": 0}
     cli_every = 400 if quick else 1500
+    cli_unpainted_every = 40 if quick else 160  # every n-th unpainted case of the tags families also runs the command line
+    unpainted_tagged = 0
 
     def one(case, fam, nontrivial):
-        nonlocal n
+        nonlocal n, unpainted_tagged
         n += 1
+        if fam in ("tags", "random_tags") and not any("Painted" in sc[0][4] for sc in case["map"]["scaffolds"]):
+            unpainted_tagged += 1
+            if unpainted_tagged % cli_unpainted_every == 2:
+                case["cli_unpainted"] = True
+                stats["cli_unpainted"] += 1
         case["yaml"] = n % 53 == 0
         scs = case["map"]["scaffolds"]
         if scs and all("Painted" in sc[0][4] for sc in scs):
@@ -599,6 +745,76 @@ def run(tier, seed, **opts):
         prefix = rng.choice(PREFIXES[:3])
         for roundings, absent, painted in variants(inp, bpt):
             one(null_map(inp, bpt, roundings, absent, painted, prefix=prefix, via=pg.pick_via(inp, idx)), "random_names", inexact(inp, bpt, absent))
+    # (h) tags on input contigs: the three scaffolds of (f) (scaffold_3 is shorter than a texel at the two larger texel sizes)
+    # and a second geometry with two sub-texel scaffolds, every tag set an earlier round can have left on a contig x where
+    # the tagged contigs sit x both routes that carry tags (objects, AGP text with tag columns)
+    tag_vias = ("agp+tags", "objects")
+    for ti, tags in enumerate(INPUT_TAG_SETS):
+        if col.full:
+            break
+        for pi, place in enumerate(TAG_PLACES):
+            if quick and pi != ti % len(TAG_PLACES) and not (pi == 0 and ti < 2):
+                continue
+            for bi, bpt in enumerate(pg.BPTS):
+                if quick and bi != 2 + (ti + pi) % 2:
+                    continue
+                for vi, via in enumerate(tag_vias):
+                    if quick and vi != (ti + pi + bi) % 2 and not (pi == 0 and ti == 0):
+                        continue
+                    idx += 1
+                    naming = namings[idx % 3]
+                    bases = [
+                        [
+                            pg.make_scaffold("scaffold_1", (40, 150), (1, -1), [S200], naming, tag="1"),
+                            pg.make_scaffold("scaffold_2", (150,), None, None, naming, tag="2"),
+                            pg.make_scaffold("scaffold_3", (2, 1), (-1, 1), [C1], naming, tag="3"),
+                        ]
+                    ]
+                    if not quick or (ti + pi) % 3 == 0:
+                        bases.append(
+                            [
+                                pg.make_scaffold("scaffold_1", (150, 40), (-1, 1), [C10], naming, tag="1"),
+                                pg.make_scaffold("scaffold_2", (1,) if bpt < 7 else (7,), None, None, naming, tag="2"),
+                                pg.make_scaffold("scaffold_3", (1000,), (-1,), None, naming, tag="3"),
+                                pg.make_scaffold("scaffold_4", (2, 2, 1), (1, 1, -1), [C1, None], naming, tag="4"),
+                            ]
+                        )
+                    for base in bases:
+                        inp = with_tags(base, place, tags, bpt)
+                        if not in_domain(inp, bpt):
+                            stats["skipped_outside_domain"] += 1
+                            continue
+                        for roundings, absent, painted in variants(inp, bpt):
+                            one(null_map(inp, bpt, roundings, absent, painted, prefix=PREFIXES[idx % 3], via=via), "tags", inexact(inp, bpt, absent) and has_input_tags(inp))
+    # (i) seeded inputs as in (c), a seeded share of the contigs carrying a seeded tag set
+    for _ in range(100 if quick else 6000):
+        if col.full:
+            break
+        bpt = rng.choice(pg.BPTS)
+        k = rng.choice((2, 3, 3, 4, 5, 8))
+        share = rng.choice((0.15, 0.4, 1.0))
+        inp = []
+        for si in range(k):
+            nc = rng.randint(1, 4)
+            lt = [rng.choice((1, 2, 7, 40, 150, 1000)) for _ in range(nc)]
+            if rng.random() < 0.4:
+                lt = [rng.choice((1, 2, 7)) for _ in range(rng.randint(1, 3))]  # candidates for being shorter than a texel
+                nc = len(lt)
+            if sum(lt) >= bpt and lt[-1] < bpt:
+                lt[-1] = rng.choice([x for x in pg.LENGTHS if x >= bpt][:2])
+            gaps = [rng.choice(pg.GAP_CHOICES) for _ in range(nc - 1)]
+            sc = pg.make_scaffold(f"scaffold_{si + 1}", lt, [rng.choice((1, -1)) for _ in range(nc)], gaps, rng.choice(namings), tag=str(si + 1))
+            for r in sc["rows"]:
+                if r[0] == "F" and rng.random() < share:
+                    r[5] = list(rng.choice(INPUT_TAG_SETS))
+            inp.append(sc)
+        if not in_domain(inp, bpt):
+            stats["skipped_outside_domain"] += 1
+            continue
+        idx += 1
+        prefix = rng.choice(PREFIXES[:3])
+        for roundings, absent, painted in variants(inp, bpt):
+            one(null_map(inp, bpt, roundings, absent, painted, prefix=prefix, via=tag_vias[idx % 2]), "random_tags", inexact(inp, bpt, absent) and has_input_tags(inp))
     return col.result(
         bounds=(
             f"name shapes: {n_shapes} shapes of scaffold / contig names (letters+digits+underscore+anything, haplotype-like first word, several underscores "
@@ -610,7 +826,10 @@ def run(tier, seed, **opts):
             "absent; prefixes SUPER_/chr/CHR_; gap-run families: 2-3 contigs with runs of 2-3 gap rows between them (every ordered pair of "
             "3 (quick) / 6 (thorough) gap kinds), runs of 1-3 gap rows in front of the first / behind the last contig, seeded inputs of 1-4 scaffolds x <= 4 "
             "contigs with runs of 0-3 gap rows, x 4 texel sizes x floor/ceil x painted/unpainted; every 7th all-painted case asked twice for its output, "
-            f"{stats['cli']} all-painted cases run twice through the command line with --autosome-prefix chr/SUPER_/CHR_/Super; " + ", ".join(f"{k}={v}" for k, v in stats.items())
+            f"{stats['cli']} all-painted cases run twice through the command line with --autosome-prefix chr/SUPER_/CHR_/Super; "
+            f"tags on input contigs: {len(INPUT_TAG_SETS)} tag sets (Cut alone, Cut + Unloc / Haplotig / Contaminant / FalseDuplicate / Singleton, these words alone) on the first / every contig of "
+            "the sub-texel scaffolds, the last contig of the placed ones, every contig, the first of each scaffold, of two enumerated inputs and of seeded inputs of 2-8 scaffolds, "
+            f"input given as objects or as AGP text with tag columns, {stats['cli_unpainted']} unpainted cases of them also through the command line; " + ", ".join(f"{k}={v}" for k, v in stats.items())
         ),
         exhaustive=False,
     )
